@@ -86,29 +86,29 @@ Print Assumptions C01_wf_check_sound.
 From PV Require Import Static StaticProofs.
 
 Theorem C01_program_refines_walk :
-  forall s df, wf s df -> links_ok s ->
-  forall fz chk, fz <> 0%nat -> chk_static_ok s chk ->
+  forall s rp df, wf s df -> links_ok s ->
+  forall fz chk, fz <> 0%nat -> chk_static_ok s rp chk ->
   forall ps nosym nf t root path, tget t root = Some ROOT -> has_nul path = false ->
     match ewalk s path nf nosym with
-    | WOk o => exists t' fd, run s t (resolve_gen fz ps chk root path nosym nf) = Done t' (Ok fd) /\ tget t' fd = Some o
-    | WErr n => exists t', run s t (resolve_gen fz ps chk root path nosym nf) = Done t' (Err (OsError n))
-    | WBudget => exists t', run s t (resolve_gen fz ps chk root path nosym nf) = Done t' (Err (OsError ELOOP))
+    | WOk o => exists t' fd, run s rp t (resolve_gen fz ps chk root path nosym nf) = Done t' (Ok fd) /\ tget t' fd = Some o
+    | WErr n => exists t', run s rp t (resolve_gen fz ps chk root path nosym nf) = Done t' (Err (OsError n))
+    | WBudget => exists t', run s rp t (resolve_gen fz ps chk root path nosym nf) = Done t' (Err (OsError ELOOP))
     end.
-Proof. intros s df Hwf Hl fz chk Hfz Hchk ps nosym nf t root path. exact (resolve_static s fz Hfz chk Hchk df Hwf Hl ps nosym nf t root path). Qed.
+Proof. intros s rp df Hwf Hl fz chk Hfz Hchk ps nosym nf t root path. exact (resolve_static s rp fz Hfz chk Hchk df Hwf Hl ps nosym nf t root path). Qed.
 
 Theorem C01_program_eq_kernel :
-  forall s df, wf s df -> links_ok s ->
-  forall fz chk, fz <> 0%nat -> chk_static_ok s chk ->
+  forall s rp df, wf s df -> links_ok s ->
+  forall fz chk, fz <> 0%nat -> chk_static_ok s rp chk ->
   forall ps nosym nf t root path, tget t root = Some ROOT -> has_nul path = false ->
     (EMPTY_PATH_IS_ENOENT = true \/ path <> []) ->
     match kwalk s path nf nosym with
-    | WOk o => exists t' fd, run s t (resolve_gen fz ps chk root path nosym nf) = Done t' (Ok fd) /\ tget t' fd = Some o
-    | WErr n => exists t', run s t (resolve_gen fz ps chk root path nosym nf) = Done t' (Err (OsError n))
+    | WOk o => exists t' fd, run s rp t (resolve_gen fz ps chk root path nosym nf) = Done t' (Ok fd) /\ tget t' fd = Some o
+    | WErr n => exists t', run s rp t (resolve_gen fz ps chk root path nosym nf) = Done t' (Err (OsError n))
     | WBudget => True          (* more than 40 link traversals: known finding F-H *)
     end.
 Proof.
-  intros s df Hwf Hl fz chk Hfz Hchk ps nosym nf t root path Hroot Hnul Hp.
-  pose proof (C01_program_refines_walk s df Hwf Hl fz chk Hfz Hchk ps nosym nf t root path Hroot Hnul) as H.
+  intros s rp df Hwf Hl fz chk Hfz Hchk ps nosym nf t root path Hroot Hnul Hp.
+  pose proof (C01_program_refines_walk s rp df Hwf Hl fz chk Hfz Hchk ps nosym nf t root path Hroot Hnul) as H.
   destruct (kwalk s path nf nosym) as [o|n|] eqn:Ek; [| |exact I];
     rewrite (emu_eq_kernel s df Hwf path nf nosym Hp) in H by (rewrite Ek; discriminate); rewrite Ek in H; exact H.
 Qed.
@@ -126,18 +126,18 @@ Proof. exact resolve_is_gen. Qed.
    included) returns the walk's answer.  (Static.v has no procfs, so this premise cannot be
    discharged inside the model; ties T1/T2 observe it on every traced lookup.) *)
 Theorem C01_resolve_refines_walk :
-  forall s df rootcomps, wf s df -> links_ok s -> names_ok s ->
-  forall fz o2 pfuel gh, fz <> 0%nat -> getpath_ok s rootcomps (as_unsafe_path fz o2 pfuel gh) ->
+  forall s rp df rootcomps, wf s df -> links_ok s -> names_ok s ->
+  forall fz o2 pfuel gh, fz <> 0%nat -> getpath_ok s rp rootcomps (as_unsafe_path fz o2 pfuel gh) ->
   forall ps nosym nf t root path, tget t root = Some ROOT -> has_nul path = false ->
     match ewalk s path nf nosym with
-    | WOk o => exists t' fd, run s t (opath_resolve_root fz o2 pfuel gh ps root path nosym nf) = Done t' (Ok fd) /\ tget t' fd = Some o
-    | WErr n => exists t', run s t (opath_resolve_root fz o2 pfuel gh ps root path nosym nf) = Done t' (Err (OsError n))
-    | WBudget => exists t', run s t (opath_resolve_root fz o2 pfuel gh ps root path nosym nf) = Done t' (Err (OsError ELOOP))
+    | WOk o => exists t' fd, run s rp t (opath_resolve_root fz o2 pfuel gh ps root path nosym nf) = Done t' (Ok fd) /\ tget t' fd = Some o
+    | WErr n => exists t', run s rp t (opath_resolve_root fz o2 pfuel gh ps root path nosym nf) = Done t' (Err (OsError n))
+    | WBudget => exists t', run s rp t (opath_resolve_root fz o2 pfuel gh ps root path nosym nf) = Done t' (Err (OsError ELOOP))
     end.
 Proof.
-  intros s df rc Hwf Hl Hn fz o2 pfuel gh Hfz Hg ps nosym nf t root path Hroot Hnul.
+  intros s rp df rc Hwf Hl Hn fz o2 pfuel gh Hfz Hg ps nosym nf t root path Hroot Hnul.
   rewrite resolve_is_gen.
-  apply (C01_program_refines_walk s df Hwf Hl fz _ Hfz (check_current_static s rc _ Hn Hg) ps nosym nf t root path Hroot Hnul).
+  apply (C01_program_refines_walk s rp df Hwf Hl fz _ Hfz (check_current_static s rp rc _ Hn Hg) ps nosym nf t root path Hroot Hnul).
 Qed.
 
 (* non-vacuity: the premises are met by a concrete tree and check routine, and the
@@ -146,11 +146,11 @@ Example C01_program_concrete :
   let s := FSModel.build [FSModel.MkDir [b "a"]; FSModel.MkDir [b "a"; b "b"]; FSModel.MkFile [b "a"; b "b"; b "f"]; FSModel.MkLnk [b "esc"] (b "../../..");
                   FSModel.MkLnk [b "a"; b "up"] (b "../a/b"); FSModel.MkLnk [b "abs"] (b "/a")] in
   let chk := fun (_ _ : Z) (_ : list bytes) => Ret (Ok tt) in
-  wf_b s = true /\ chk_static_ok s chk /\
-  (match run s [(5%Z, ROOT)] (resolve_gen 1 1 chk 5 (b "esc/a/up/../b/f") false false) with
+  wf_b s = true /\ chk_static_ok s (b "/srv/root") chk /\
+  (match run s (b "/srv/root") [(5%Z, ROOT)] (resolve_gen 1 1 chk 5 (b "esc/a/up/../b/f") false false) with
    | Done t' (Ok fd) => tget t' fd
    | _ => None end) = Some 3%nat /\
-  (match run s [(5%Z, ROOT)] (resolve_gen 1 1 chk 5 (b "a/b/f/x") false false) with
+  (match run s (b "/srv/root") [(5%Z, ROOT)] (resolve_gen 1 1 chk 5 (b "a/b/f/x") false false) with
    | Done _ (Err (OsError e)) => Some e
    | _ => None end) = Some E_NOTDIR.
 Proof. split; [vm_compute; reflexivity|]. split; [intros t cur root exp o _ _ _; reflexivity|]. split; vm_compute; reflexivity. Qed.
